@@ -225,6 +225,21 @@ CHECKS['C08'] = {
     ],
 }
 
+CHECKS['C14'] = {
+    'level': 'exploration',
+    'technique': 'differential property testing of generated filter trees against a reference evaluator written from the documentation; archive round trip; expression printer/parser round trip; hostile archives and arbitrary expression strings under ASan/UBSan',
+    'level_text': ('Generated filter ASTs (13 kinds, all numeric types with mask ops and defaults, 24 string operators, 12 raw operators, what-code ranges, exists, and/or/nand/nor/xor, min/max thresholds, Message filters) evaluated on Messages generated from the filter (so the comparison, not the default rule, decides most evaluations). '
+                   'Matches must equal the reference, leave the Message bytes unchanged, agree with the filter restored from its flattened archive and with the filter parsed from the printed expression. Hostile archives (field-wise and byte-wise mutations, self-similar nesting) and token-soup expression strings must be rejected or evaluate without a sanitizer report.'),
+    'level_note': ('Trusted: the reference evaluator (harness/C14_queryfilter.cpp RefEval). It declines (case not compared, counted) where the documentation defers to another function: empty needle for contains/substring-of, B_ANY_TYPE raw filter on a non-raw field, empty raw operand. '
+                   'Regex-operator string filters (the F19 door) are not generated by the semantic part; pattern/regex operators are outside the reference.'),
+    'rule': ('Byte-decoded cases: 6/8 semantic (filter tree + 4 Messages, 3 of them generated from the filter), 1/8 hostile archive, 1/8 arbitrary expression string. Non-trivial (semantic): at least one of the four evaluations was decided by a value present in the Message with the right type and index; hostile modes count every case. Distinct: hash of the case bytes.'),
+    'assumptions': [],
+    'targets': [
+        {'name': 'c14_queryfilter', 'src': ['harness/C14_queryfilter.cpp'], 'quick_n': 2000000, 'thorough_n': 30000000, 'maxlen': 400, 'min_nontrivial': 300000, 'timeout_is_violation': True,
+         'class_floors': {'mode_semantics': 100000, 'mode_hostile_archive': 10000, 'mode_arbitrary_expression': 10000, 'expressions_parsed': 5000, 'evaluations_decided_by_a_present_value': 100000, 'hostile_archive_accepted': 1000, 'arbitrary_expression_accepted': 300}},
+    ],
+}
+
 
 def setup():
     t0 = time.time()
